@@ -15,9 +15,9 @@ SCHEMA = f'''<xs:schema {XS}>
  <xs:element name="r"><xs:complexType><xs:sequence>
    <xs:element name="item" type="B" maxOccurs="unbounded"/>
    <xs:element ref="gitem" minOccurs="0" maxOccurs="unbounded"/>
-   <xs:element name="bitem" type="B" block="extension" minOccurs="0" maxOccurs="unbounded"/>
    <xs:element name="sa" minOccurs="0" maxOccurs="unbounded"><xs:complexType><xs:anyAttribute namespace="##other" processContents="strict"/></xs:complexType></xs:element>
    <xs:element name="la" minOccurs="0" maxOccurs="unbounded"><xs:complexType><xs:anyAttribute namespace="##other" processContents="lax"/></xs:complexType></xs:element>
+   <xs:element name="bitem" type="B" block="extension" minOccurs="0" maxOccurs="unbounded"/>
    <xs:element name="fix" type="xs:decimal" fixed="1.0" minOccurs="0"/>
    <xs:element name="u" minOccurs="0" maxOccurs="unbounded"><xs:simpleType><xs:union memberTypes="xs:int xs:string"/></xs:simpleType></xs:element>
    <xs:any namespace="##other" processContents="lax" minOccurs="0"/>
@@ -45,9 +45,12 @@ DOCS = [
     # attributes matched by a wildcard whose namespace is loaded on demand (XLink has a bundled fallback location): strict and lax, valid and invalid values
     f'<r {XSI} xmlns:xlink="http://www.w3.org/1999/xlink"><item k="1"><a>x</a></item><sa xlink:type="simple"/></r>', f'<r {XSI} xmlns:xlink="http://www.w3.org/1999/xlink"><item k="1"><a>x</a></item><la xlink:show="sideways"/></r>',
     f'<r {XSI} xmlns:xlink="http://www.w3.org/1999/xlink"><item k="1"><a>x</a></item><sa xlink:type="bogus"/><la xlink:type="simple"/></r>',
+    # an xsi:type met AFTER the on-demand load of a namespace in the same run (the load rebuilds the components the run is using)
+    f'<r {XSI} xmlns:xlink="http://www.w3.org/1999/xlink"><item k="1"><a>x</a></item><sa xlink:type="simple"/><bitem k="3" xsi:type="B"><a>x</a></bitem></r>',
     # a union with lexically overlapping members: which member decodes a value must not depend on what was decoded before
     f'<r {XSI}><item k="1"><a>x</a></item><u>alpha</u><u>n/a</u></r>', f'<r {XSI}><item k="1"><a>x</a></item><u>1</u><u>01</u></r>', f'<r {XSI}><item k="1"><a>x</a></item><u>7</u></r>',
 ]
+MIDRUN = [i for i, d in enumerate(DOCS) if 'bitem k="3" xsi:type="B"' in d][0]
 OPS = ['is_valid', 'iter_errors', 'decode_lax', 'decode_strict', 'validate', 'lazy', 'to_objects', 'stop', 'encode']
 
 
@@ -80,11 +83,14 @@ def call(s, op, doc):
 
 def eval_history(args):
     ver, hist = args
-    s = _cls(ver)(SCHEMA)
+    s = _cls(ver)(SCHEMA); known = False
     for step, (op, i) in enumerate(hist):
         got = call(s, op, DOCS[i]); exp = call(_cls(ver)(SCHEMA), op, DOCS[i])
-        if got != exp: return dict(ver=ver, history=hist[:step + 1], got=got, fresh=exp)
-    return None
+        if got != exp:
+            if i == MIDRUN and 'cannot substitute' not in repr(got):         # the document dedicated to the listed finding, whatever the operation
+                known = True; continue        # the FRESH schema shows the spurious error (listed finding); a used one does not
+            return dict(ver=ver, history=hist[:step + 1], got=got, fresh=exp)
+    return dict(known=True) if known else None
 
 
 def run(tier, seed, open_findings):
@@ -92,11 +98,15 @@ def run(tier, seed, open_findings):
     hists = [[(rng.choice(OPS), rng.randrange(len(DOCS))) for _ in range(6)] for _ in range(n)]
     jobs = [(ver, h) for h in hists for ver in ('1.0', '1.1')]
     res = pmap(eval_history, jobs, chunk=2)
-    fails = [dict(case=dict(ver=r['ver'], history=r['history']), observed=dict(got=r['got'], fresh=r['fresh']), required='result equals the fresh-schema result') for r in res if r]
-    return [result('C10.call_histories', f'{len(hists)} seeded histories of 6 calls over {len(OPS)} operations x {len(DOCS)} documents x 2 classes', len(jobs) * 6, fails,
+    K = 'C10-on-demand-namespace-load-rebuilds-the-components-in-use'
+    nk = sum(1 for r in res if r and r.get('known'))
+    fails = [dict(case=dict(ver=r['ver'], history=r['history']), observed=dict(got=r['got'], fresh=r['fresh']), required='result equals the fresh-schema result') for r in res if r and not r.get('known')]
+    if nk and K not in open_findings:
+        fails.append(dict(case=dict(ver='1.0', history=[['iter_errors', MIDRUN]]), observed='a fresh schema reports a spurious substitution error after a mid-run namespace load, a used one does not', required='result equals the fresh-schema result'))
+    return [result('C10.call_histories', f'{len(hists)} seeded histories of 6 calls over {len(OPS)} operations x {len(DOCS)} documents x 2 classes', len(jobs) * 6, fails, known=({K: nk} if nk and K in open_findings else {}),
                    samples=[dict(history=hists[0][:3])], distinct=len(jobs))]
 
 
 def replay(check_name, case):
-    r = eval_history((case['ver'], [tuple(x) for x in case['history']]))
+    r = eval_history((case['ver'], [(op, MIDRUN if i == 'MIDRUN' else i) for op, i in case['history']]))
     return dict(ok=r is None, observed=r, required='result equals the fresh-schema result')
